@@ -166,7 +166,7 @@ struct C11 : Property {
   C11() {
     id = "C11";
     technique = "deterministic simulation with fault injection: real libcoap server and clients, seeded histories of register/change/cancel/re-register with loss/dup/delay on notifications, ACKs and RSTs; wire-level observe-registry oracle (R7) with 24-bit serial arithmetic + retransmission monitor (R3)";
-    rule_text = "plan = 1..3 resources (NOTIFY_NON / NOTIFY_CON) x 1..3 clients x history of 5..40 ops (register with fresh or reused token, change = coap_resource_notify_observers incl. bursts between I/O steps, cancel by Observe=1 / by RST (client handler verdict FAIL) / by error response (resource answers 4.04) / by resource deletion, idle periods beyond the session time-out) x drop/dup/delay faults on both directions of every client link. Non-trivial: at least one notification was sent after a fault fired; distinct = distinct trace hash.";
+    rule_text = "plan = 1..3 resources (NOTIFY_NON / NOTIFY_CON) x 1..4 clients x history of 5..40 ops (register with fresh or reused token, change = coap_resource_notify_observers incl. bursts between I/O steps, cancel by Observe=1 / by RST (client handler verdict FAIL) / by error response (resource answers 4.04) / by resource deletion, idle periods beyond the session time-out) x drop/dup/delay faults on both directions of every client link. Non-trivial: at least one notification was sent after a fault fired; distinct = distinct trace hash.";
     real_components = {"libcoap server: coap_resource.c (coap_add_observer, coap_notify_observers, coap_check_notify, failed-observer handling), coap_subscribe.c, coap_net.c (Observe handling in handle_request, RST handling), coap_session.c (idle reclamation); libcoap clients: observe bookkeeping, coap_cancel_observe"};
     stub_components = {"simk clock/UDP", "R1 decoder for the wire registry"};
     assumptions = {"deregistration is effective at the server when the cancelling datagram was processed there (handler ran with Observe=1, RST matched, give-up NACK, error response sent, resource deleted); notifications sent before that instant are legitimate",
@@ -183,7 +183,7 @@ struct C11 : Property {
     p["seed"] = base;
     p["index"] = index;
     p["sched_salt"] = r.next() & 0xffffffff;
-    int nres = (int)r.range(1, 3), ncl = (int)r.range(1, 3);
+    int nres = (int)r.range(1, 3), ncl = (int)r.range(1, 4);
     json resj = json::array();
     for (int i = 0; i < nres; i++) resj.push_back({{"con", r.chance(0.35)}});
     // "notifications larger than one block": the representation is 2500 bytes (more than a datagram takes) served through
